@@ -129,6 +129,10 @@ def _loads(root_inc: int, chain: bool, nested_inc: int,
     fs.files["/cfg/r.mem"] = mem.put(f_tree)
     fs.files["/cfg/g.mem"] = mem.put(g_tree)
     fs.files["/cfg/n.mem"] = mem.put(n_tree)
+    # same-named files relative to the working directory: must never be read (paths resolve against startdir)
+    decoy = mem.put({"x": 4242, "w": 4242, "sub": {"y": 4242, "z": 4242}})
+    for name in ("r.mem", "g.mem", "n.mem"):
+        fs.files[name] = decoy
     nested_paths = ("n.mem", "/cfg/n.mem", "missing.mem", "/cfg/dir")
     # main document
     main = {}
